@@ -197,10 +197,14 @@ class Context:
             literal_value = return_tuple
 
         elif isinstance(literal, ast.Set):
-            return_set = set()
-            for si in literal.elts:
-                return_set.add(self._get_literal_value(si))
-            literal_value = return_set
+            try:
+                return_set = set()
+                for si in literal.elts:
+                    return_set.add(self._get_literal_value(si))
+                literal_value = return_set
+            except TypeError:
+                # an unhashable element ({[1]}): not evaluable as a set
+                literal_value = None
 
         elif isinstance(literal, ast.Dict):
             literal_value = dict(zip(literal.keys, literal.values))
